@@ -611,8 +611,13 @@ func (h *hist) step(c px.Context, st sx.Sexp) (res *entry, recv int, args []int)
 		return marker("~"), recv, nil
 	case "chunk":
 		nn, k := a[1].MustInt(), a[2].MustInt()
-		if nn < 1 || nn > 64 || k < 0 || k*nn >= int64(r.list().Len()) {
-			return marker("~"), recv, nil // (EachSlice(0, …) does not terminate; no such chunk)
+		if nn < 1 {
+			// a slice size below one is an argument error (before "fix: EachSlice with a slice size below one …" a
+			// size of zero made EachSlice loop forever: the frame's per-op deadline reports that as `timeout`)
+			return call(func() { r.list().EachSlice(int(nn), func(px.List) {}) }), recv, nil
+		}
+		if nn > 64 || k < 0 || k*nn >= int64(r.list().Len()) {
+			return marker("~"), recv, nil // no such chunk
 		}
 		idx := int64(0)
 		return call(func() {
